@@ -1,8 +1,12 @@
 (** C16 -- collect()/first() give the right results at the right time and abort the rest.
-    PARTIAL at proof level: the statements below are about the transcription of first()/collect() that the
-    whole-program machine executes; results-at-the-right-time for whole programs is tied to the code by
-    whole-trace correspondence on the `flows` family and checked by an oracle on the implementation.
-    Aborting the rest is structured-concurrency containment (C04); FIFO delivery is C10. *)
+    Two layers:
+    (1) the transcription of first()/collect() that the whole-program machine executes (first_gen, SCollect in Lib.v /
+        Scenario.v): the `_partial` statements below plus whole-trace correspondence on the `flows` family;
+    (2) the mechanism-level model FlowProto.v (agenda of activations, monitors, queue, consumer, internal scope) with
+        theorems for ALL inputs further down: finish order, what is yielded and when, ValueError, the stop and the
+        aborts, collect's result / failure - tied to usim/_concurrent/basics.py by the correspondence of
+        harness/flowcorr.py.
+    Aborting the rest inside arbitrary programs is structured-concurrency containment (C04); FIFO delivery is C10. *)
 From Coq Require Import ZArith List Bool.
 From Usim Require Import XTime Tables Kernel Machine Lib FlowProps.
 Import ListNotations.
